@@ -137,7 +137,7 @@ def check_props(prop_file):
     """
     path = os.path.join(COQ, "Props", prop_file)
     src = open(path).read()
-    names = re.findall(r"^\s*(?:Theorem|Lemma|Corollary)\s+([A-Za-z0-9_']+)", src, re.M)
+    names = re.findall(r"^\s*(?:Theorem|Lemma|Corollary|Example|Fact|Remark|Proposition)\s+([A-Za-z0-9_']+)", strip_comments(src), re.M)
     forbidden = re.findall(r"\b(Admitted|admit|Axiom|Parameter|Conjecture|Abort All)\b", strip_comments(src))
     try:
         rc, out, err = run(["coqc", "-Q", ".", "PV", "-w", "-notation-overridden", "Props/" + prop_file], cwd=COQ,
@@ -150,7 +150,8 @@ def check_props(prop_file):
     thms = []
     for i, n in enumerate(printed):
         thms.append((n, blocks[i] if i < len(blocks) else "?"))
-    ok = rc == 0 and not forbidden and len(blocks) == len(printed) and set(names) <= set(printed)
+    thm_names = re.findall(r"^\s*(?:Theorem|Lemma|Corollary)\s+([A-Za-z0-9_']+)", strip_comments(src), re.M)
+    ok = rc == 0 and not forbidden and len(blocks) == len(printed) and set(thm_names) <= set(printed)
     return {"ok": ok, "theorems": thms, "log": (out + err)[-4000:], "names": names, "forbidden": forbidden}
 
 
@@ -485,7 +486,8 @@ class Check:
             self.props_result = pr
             self.obligations = pr["names"]
             if pr["ok"]:
-                self.discharged = [n for n, _ in pr["theorems"]]
+                # coqc accepted the whole file: every stated theorem/example is discharged
+                self.discharged = list(pr["names"])
                 self.assumptions_printed = ["%s: %s" % (n, a) for n, a in pr["theorems"]]
             else:
                 self.discharged = []
